@@ -7,6 +7,7 @@
 #include "stir/ProjDataInfo.h"
 #include "stir/ProjDataInfoCylindricalNoArcCorr.h"
 #include "stir/ExamInfo.h"
+#include "stir/TimeFrameDefinitions.h"
 #include "stir/VoxelsOnCartesianGrid.h"
 #include "stir/IndexRange3D.h"
 #include "stir/Verbosity.h"
@@ -64,6 +65,22 @@ make_exam_info()
   shared_ptr<stir::ExamInfo> e(new stir::ExamInfo);
   e->imaging_modality = stir::ImagingModality::PT;
   return e;
+}
+
+// TimeFrameDefinitions::operator== of the library only walks the frames of its left operand (an object without frames
+// "equals" everything): compare the number of frames and every frame here
+inline bool
+same_frames(const stir::TimeFrameDefinitions& a, const stir::TimeFrameDefinitions& b)
+{
+  if (a.get_num_frames() != b.get_num_frames())
+    return false;
+  for (unsigned f = 1; f <= a.get_num_frames(); ++f)
+    {
+      const double s1 = a.get_start_time(f), s2 = b.get_start_time(f), e1 = a.get_end_time(f), e2 = b.get_end_time(f);
+      if (std::fabs(s1 - s2) > 1e-3 + 1e-5 * std::fabs(s1) || std::fabs(e1 - e2) > 1e-3 + 1e-5 * std::fabs(e1))
+        return false;
+    }
+  return true;
 }
 
 inline void
